@@ -550,6 +550,8 @@ _LONGC = "VeryLongClassNameForTestingPurposesWithPlenty"
 def long_library(n, cl, fl):
     nm, cn = _LONG[:n], _LONGC[:n]
     return {"library": "lin", "cxx_header": "lin.hpp",
+            # with the shortest identifiers a long C prefix instead: it enters the bind(C) names of the helpers Shroud adds
+            "format": ({"C_prefix": "ocean_circulation_model_v2_"} if n <= 8 else {}),
             "options": {"wrap_python": True, "wrap_lua": True, "C_line_length": cl, "F_line_length": fl},
             "declarations": [
                 {"decl": "class %s" % cn, "declarations": [
@@ -578,6 +580,8 @@ def long_library(n, cl, fl):
                 {"decl": "void %s_c2(char **names_argument_name_that_is_long +intent(in))" % nm},
                 {"decl": "bool %s_b1(bool *logical_argument_name_that_is_long +intent(inout))" % nm},
                 {"decl": "int *%s_p1(int *count_argument_name_that_is_long +intent(out)+hidden) +dimension(count_argument_name_that_is_long)" % nm},
+                {"decl": "int *%s_p2(int *count_argument_name_that_is_long +intent(out)+hidden) "
+                         "+dimension(count_argument_name_that_is_long)+deref(pointer)+owner(caller)" % nm},
                 {"decl": "const std::string %s_r1(int selector_argument_name_that_is_long)" % nm},
                 {"decl": "const std::string &%s_r2(int selector_argument_name_that_is_long) +deref(allocatable)" % nm},
                 {"decl": "void %s_a1(int *array_argument_name_that_is_long +intent(out)+dimension(extent_argument_name_long), int extent_argument_name_long)" % nm},
